@@ -156,6 +156,9 @@ Theorem C03_history_4p : forall T, tnum_laws T -> forall hs evs alphas, rect T a
   = slow_tensor T (slow_code4p T) hs alphas.
 Proof. exact history_4p. Qed.
 
+Theorem C03_cache_invariant : forall T cell dup ddn hs evs, Inv T dup ddn hs (run T cell dup ddn hs evs).
+Proof. exact Inv_run. Qed.
+
 Print Assumptions C03_code0_anchors.
 Print Assumptions C03_code1_anchors.
 Print Assumptions C03_code2_anchors.
@@ -194,3 +197,4 @@ Print Assumptions C03_history_1.
 Print Assumptions C03_history_2.
 Print Assumptions C03_history_4.
 Print Assumptions C03_history_4p.
+Print Assumptions C03_cache_invariant.
